@@ -84,8 +84,8 @@ def build_cases(tier, sigs):
         extra.append(('json-roundtrip', 'json_deserialize(%s).serialize()' % xstr(txt)))
     # distributions built from edge parameters, then every float-producing method on them
     dpar = [0.5, 2.0, 1000.0] if tier == 'quick' else \
-           [0.0, 5e-324, 1e-300, 0.5, 1.0, 2.0, 1000.0, 1e16, 1e155, 1e300, 1.7976931348623157e308, -1.0]
-    dpools = Pools(ints=[2, 40] if tier == 'quick' else [0, 1, 2, 40, 1 << 62], floats=dpar, size=len(dpar))
+           [0.0, 0.5, 1.0, 2.0, 1000.0, 1e155, -1.0]
+    dpools = Pools(ints=[2, 40] if tier == 'quick' else [0, 1, 2, 40], floats=dpar, size=len(dpar))
     methods = ['%s.sample(40)', '%s.random()', '%s.mean()', '%s.variance()', '%s.std_dev()', '%s.skewness()']
     xs = ['0.0', '1.0', xfloat(-1e300), xfloat(1e300), xfloat(5e-324)]
     for x in xs:
